@@ -144,6 +144,12 @@ def run(ctx):
         (ctx.bad if probs else ctx.ok)("D-TABLE", "D-TABLE:%s::get_mapping" % owner, body.span, "; ".join(probs) if probs else "get_mapping returns the entry stored under `name`")
 
     d_source(ctx, prog, gh)
+    # D-NOTIME: the lookup waits for its reply; it does not give up by the clock (the property quantifies over arbitrary
+    # frame delays: a correct reply that is merely late must still be returned and cached)
+    clocks = [(bb, t) for bb, t in K.calls(gh) if (F.callee_key(t) or "").startswith("tokio::time::") and (F.callee_key(t) or "").rsplit("::", 1)[-1] in ("timeout", "timeout_at", "sleep", "sleep_until", "interval")]
+    (ctx.bad if clocks else ctx.ok)("D-NOTIME", "D-NOTIME:get_host_by_name", F.call_loc(clocks[0][1]) if clocks else gh.span,
+        "get_host_by_name bounds the wait for the reply with %s: a reply delayed beyond that (slow frames, ARP retries) makes the lookup fail and cache nothing although the server answered with the registered address" % K.short(F.callee_key(clocks[0][1])) if clocks else
+        "the lookup does not give up by the clock")
     # ---------------------------------------------------------------- D-ECHO
     cr = prog.method("DnsServer", "create_response")
     probs = []
